@@ -74,6 +74,32 @@ Definition copy_parsed (bs : bytes) : res (bytes * N) :=
   | FinPanic => Panic
   end.
 
+(* append (cli append.rs / lib archive.rs test `append`): open, seek_to_end, add the raw entries of a donor archive,
+   finalize.  The underlying File / Cursor is written in place and never truncated: bytes of the old archive
+   behind the new end marker stay *)
+Definition overwrite (bs : bytes) (pos : nat) (w : bytes) : bytes :=
+  firstn pos bs ++ w ++ skipn (pos + length w) bs.
+Definition append_raw (base donor : bytes) : res (bytes * bool) :=
+  do (_, r) <- read_header read_chunk_stream base;
+  do (off, nxt) <- seek_loop (S (length r)) r 0 false;
+  do (raws, f, _) <- raw_entries read_chunk_stream donor;
+  match f with
+  | FinOk => Ok (overwrite base (28 + N.to_nat off) (concat (map (fun e => fst (add_chunks e)) raws) ++ finalize), nxt)
+  | FinErr e => Err e
+  | FinPanic => Panic
+  end.
+
+(* a part chain cut inside part k at byte n / with byte n of part k altered (later parts stay) *)
+Definition cut_parts (ps : list bytes) (k n : nat) : list bytes := firstn k ps ++ [firstn n (nth k ps [])].
+Definition alter_parts (ps : list bytes) (k n : nat) (m : N) : list bytes :=
+  firstn k ps ++ xor_at (nth k ps []) n m :: skipn (S k) ps.
+Definition show_parts_res (r : res (list (list chunk) * fin)) : bytes :=
+  match r with
+  | Ok (es, f) => c_ "LIST " ++ jn ";" (map show_chunks es) ++ c_ "|" ++ show_fin f
+  | Err e => c_ "ERR " ++ show_ekind e
+  | Panic => c_ "PANIC"
+  end.
+
 Definition show_copy (r : res (bytes * N)) : bytes :=
   show_res (fun p => hex (fst p) ++ c_ " " ++ dec (snd p)) r.
 
@@ -128,6 +154,19 @@ Definition run_archive (op : bytes) (args : list bytes) : bytes :=
       end
     | None => bad_case
     end
+  else if bytes_eqb op (c_ "ptrunc") then
+    match all_some (map unhex (list_field (A_ 1%nat))) with
+    | Some ps => show_parts_res (read_parts (reader_arg (A_ 0%nat)) (cut_parts ps (N.to_nat (N_ 2%nat)) (N.to_nat (N_ 3%nat))))
+    | None => bad_case
+    end
+  else if bytes_eqb op (c_ "palter") then
+    match all_some (map unhex (list_field (A_ 1%nat))) with
+    | Some ps => show_parts_res (read_parts (reader_arg (A_ 0%nat))
+                                   (alter_parts ps (N.to_nat (N_ 2%nat)) (N.to_nat (N_ 3%nat)) (N_ 4%nat)))
+    | None => bad_case
+    end
+  else if bytes_eqb op (c_ "append") then
+    show_res (fun p => hex (fst p) ++ c_ " " ++ showb (snd p)) (append_raw (H_ 0%nat) (H_ 1%nat))
   else if bytes_eqb op (c_ "offsets") then
     show_res (fun l => jn "," (map (fun p => jn ":" [hex (cty (fst p)); dec (len (cdata (fst p))); dec (snd p)]) l))
              (chunk_list (H_ 0%nat))
